@@ -90,6 +90,17 @@ func headerAtoms(target string) []hdrAtom {
 		{"Location: " + target, "loc", "", target},
 		{"location:" + target, "loc", "", target},
 	}
+	// one header line longer than a reader's buffer (4096 bytes for bufio) whose tail reads like
+	// another header, placed exactly at and next to multiples of the buffer size: it is one
+	// line, so it is neither a Content-Type nor a Location
+	long := func(at int, tail string) string {
+		return "X-Pad: " + strings.Repeat("p", at-len("X-Pad: ")) + tail
+	}
+	for _, at := range []int{4095, 4096, 4097, 8192} {
+		h = append(h, hdrAtom{long(at, "Content-Type: application/activity+json"), "neutral", "", ""})
+	}
+	h = append(h, hdrAtom{long(4096, "Location: "+target), "neutral", "", ""})
+	h = append(h, hdrAtom{long(4096, "Content-Type: text/html"), "neutral", "", ""})
 	return h
 }
 
@@ -670,8 +681,8 @@ func short(r result) result {
 
 func main() {
 	r := ev.New("C03", "model_checking",
-		"responses: full product of status-line atoms (2 versions x 17 codes x with/without reason, 8 malformed, 10 exotic) x all header-line sequences of length <=2 over 23 atoms "+
-			"(tolerated/foreign/malformed Content-Types, confusable header names, Location) x 14 bodies x 2 tolerated sets, classified must-accept / must-reject / unspecified by a reference written from the statement; "+
+		"responses: full product of status-line atoms (2 versions x 17 codes x with/without reason, 8 malformed, 10 exotic) x all header-line sequences of length <=2 over 29 atoms "+
+			"(tolerated/foreign/malformed Content-Types, confusable header names, Location, header lines longer than a 4096-byte read buffer whose tail at and around the buffer boundary reads like a Content-Type or Location) x 14 bodies x 2 tolerated sets, classified must-accept / must-reject / unspecified by a reference written from the statement; "+
 			"redirect graphs: chains of every length around each budget (jtp.Get budgets 0..3, client.FetchURL budget 20) in 5 Location styles, cycles of length 1..3, 7 kinds of bad hop at each position; "+
 			"histories: explicit-state search over fetch sequences (15 URLs: documents, relative and absolute redirects, 404, cycle, chain longer than the budget and its suffixes, the same host and path under http and a redirect to it, fragment and :443 variants) for cache sizes 1,2,3,128, "+
 			"state = real cache contents, every fetch compared with the cold result; distinct_nontrivial = response cases that are not the baseline and are judged")
